@@ -95,7 +95,11 @@ def solve_one(ob, axioms, timeout_ms=None, want_model=True, seed=0, hints=()):
             if s2.check() == z3.sat:
                 model = s2.model()
     elif r == z3.sat and want_model:
-        model = s.model()
+        if model is None:
+            try:
+                model = s.model()
+            except z3.Z3Exception:
+                model = None
         # prefer a SMALL counter-model (input sizes bounded), so that it can be replayed quickly
         if hints and ob.kind != 'cover':
             m2 = small_model(list(ob.hyps) + [z3.Not(ob.goal)], axioms, hints)
